@@ -19,6 +19,8 @@ import (
 
 type Global struct {
 	famCache   map[*ssa.FreeVar]map[*ssa.Function]bool
+	reflective map[string]bool
+	pkgByPath  map[string]*packages.Package
 	reachCache map[string]bool
 	prog     *ssa.Program
 	pkgs     []*packages.Package
